@@ -33,15 +33,18 @@ PROPS = {
         "lean_deps": ["OAuth2Model.Driver.Adapter"],
         "theorems": ["C09.glue_ok", "C09.glue_success_exact", "C09.glue_error", "C09.C09_transparent",
                      "C09.C09_transparent_partial", "C09.C09_pinned_ureq_ge400", "C09.C09_pinned_not_transparent",
-                     "C09.C09_same_class", "C09.C09_same_class_partial", "C09.C09_faults", "C09.C09_success_exact",
-                     "C09.C09_request", "C09.C09_request_of_build"],
+                     "C09.C09_same_class", "C09.C09_same_class_partial", "C09.C09_faults_partial", "C09.C09_faults",
+                     "C09.C09_ureq_truncated_chunked_shortened", "C09.C09_ureq_not_faults_surface",
+                     "C09.C09_success_exact_partial", "C09.C09_request", "C09.C09_request_of_build"],
         "custom": ["adapters_c09"],
         "signatures": ["C09:"],
         "level": "proof",
         "explanation": "PARTIAL proof. Proved (kernel-checked): the adapter glue of src/{reqwest,curl,ureq}_client.rs as modelled in "
                        "Model/Adapter.lean (engine result -> HttpResponse | error, HttpRequest -> engine request) and its composition "
                        "with ASSUMED engine contracts `lib`/`wire`, for both the pinned ureq glue (C09_transparent_partial, "
-                       "C09_pinned_not_transparent = finding F4) and the repaired one (C09_transparent). NOT proved, only sampled by "
+                       "C09_pinned_not_transparent = finding F4) and the repaired one (C09_transparent); the fault clause holds at full "
+                       "strength for reqwest/reqwest-blocking/curl (C09_faults) and for ureq excluding a chunked reply cut inside a chunk "
+                       "(C09_faults_partial; C09_ureq_not_faults_surface = finding F6, a ureq 2.x engine behaviour). NOT proved, only sampled by "
                        "loopback runs of the four real adapters against a scripted raw-socket server: HTTP/1.1 framing by "
                        "hyper/reqwest, libcurl and ureq, sockets, timing. Each run is judged twice: by a model-free oracle "
                        "(transparency computed from the script) and against the Lean model through driver op `adp`, which also "
